@@ -392,6 +392,7 @@ package goose
 //@   loop 1 invariant [C04 only generated declarations are emitted] forall s declId :: {emitted[s]} emitted[s] ==> gen(g, s)
 
 //@ func (Ctx).Decls (ctx, fs)
+//@   also C07
 //@   funcvalue processDecl = (Ctx).Decls$1
 //@   may_reject
 //@   ensures [C04 every declaration of every file is emitted] forall a int, b int :: 0 <= a && a < len(fs) && 0 <= b && b < len(fs[a].Ast.Decls) ==> emitted[struct(declId, a, b)]
@@ -408,6 +409,8 @@ package goose
 //@   loop 4 invariant [C07 every name belongs to a declaration of one of the files] namesvalid(nameDecls, len(fs))
 //@   loop 5 invariant [C04 dependency lists are allocated] depsalloc(declDeps)
 //@   loop 5 invariant [C07 every name belongs to a declaration of one of the files] namesvalid(nameDecls, len(fs))
+//@   loop 4 invariant [C07 the files are the ones passed in] current(fs) == fs
+//@   loop 5 invariant [C07 the files are the ones passed in] current(fs) == fs
 //@   loop 4 ghost_init emitted
 //@   loop 4 ghost_init inprog
 //@   loop 4 invariant [C07 the recursion stack is empty between top-level visits] forall s declId :: {inprog[s]} !inprog[s]
